@@ -13,6 +13,9 @@
 //               the same pass) / cleanup, outside and inside callbacks
 //   exhaustive  one case = one (interval/mode configuration of 3 timers, callback action) pair; inside it EVERY script of
 //               --depth symbols over {enable i, disable i, destroy i, pass with advance 0..7} is run
+//   far         64 enumerated cases: one timer (one-shot / persistent) with an interval around 2^31, 2^32, 30 days, alone or next
+//               to a 5 ms one-shot, on both back-ends; passes land at 0, d/2, d-1, d (and 2d, 4d+3) with no task pending, so
+//               the loop computes a real timeout for the kernel each time
 //   realtime    no virtual clock: timers on a loop that really sleeps in epoll_wait/select; never-early against
 //               steady_clock, nothing due before the exit timer may be missing when runLoop returns; a loop that sleeps
 //               for ever is caught by the watchdog
@@ -1098,6 +1101,42 @@ void exhaustive_case(uint64_t idx, vh::Rng &r, int depth) {
 }
 
 // =========================================================================================================================
+// far: deadlines further away than the kernel's int milliseconds can express (enumerated, 64 cases)
+// =========================================================================================================================
+const uint64_t kFar[8] = {(1ULL << 31) - 1, 1ULL << 31, (1ULL << 31) + 1, (1ULL << 32) - 1, 1ULL << 32, (1ULL << 32) + 7, 2592000000ULL, 3 * (1ULL << 31) + 5};
+
+void far_case(uint64_t idx, vh::Rng &r) {
+    bool epoll = (idx & 1) == 0, persist = (idx >> 1) & 1, with_near = (idx >> 5) & 1;
+    uint64_t d = kFar[(idx >> 2) & 7];
+    TimerWorld w;
+    CoreScope scope(&w);
+    w.r = &r;
+    w.setup(epoll, 2);
+    g_clock = 1000 + (idx >> 6) * 77;
+    w.base = g_clock;
+    w.note(vh::fmt("engine=%s drive=once t0=%llu:", epoll ? "epoll" : "select", (unsigned long long)g_clock));
+    w.create(0); w.init(0, d, persist); w.enable(0);
+    if (with_near) { w.create(1); w.init(1, 5, false); w.enable(1); }
+    auto pass = [&](uint64_t adv) { if (!w.failed) { w.check_wait(); w.once_pass(adv, false); w.check_all_enabled("pass"); w.finish_script(); } };
+    pass(0);                            // the loop goes to sleep with the far deadline (or the near one) ahead
+    if (with_near) pass(5);             // the near one-shot fires, the far one stays
+    pass(d / 2 - (with_near ? 5 : 0));  // half way
+    pass(d - d / 2 - 1);                // one ms before the deadline: nothing
+    uint64_t before = w.e[0].fires;
+    pass(1);                            // exactly on it
+    if (!w.failed && w.e[0].fires != before + 1) w.fail("timer/missed/far-deadline-not-served", "the far timer did not fire exactly once on its deadline");
+    if (persist) { pass(d); pass(2 * d + 3); }
+    if (!w.failed) { w.disable(0); pass(d + 1); }
+    CNT("far_cases");
+    w.flush_rep();
+    uint64_t cbs = w.callbacks;
+    std::string log = w.log;
+    w.teardown();
+    vh::note_case(w.sig.h, cbs > 0);
+    if (vh::want_sample(1)) vh::sample("{\"family\":\"far\",\"callbacks\":" + std::to_string(cbs) + ",\"script\":" + vh::jstr(log.substr(0, 800)) + "}", 1);
+}
+
+// =========================================================================================================================
 // realtime: real steady clock, the loop really sleeps
 // =========================================================================================================================
 uint64_t real_ms() {
@@ -1198,6 +1237,7 @@ int main(int argc, char **argv) {
             else if (mode == "pool") pool_random_case(idx, r);
             else if (mode == "exhaustive") exhaustive_case(idx, r, (int)depth);
             else if (mode == "realtime") realtime_case(idx, r);
+            else if (mode == "far") far_case(idx, r);
             else { fprintf(stderr, "VH-FATAL: unknown-mode\n"); abort(); }
         } catch (const AbortCase &) {
             // a violation was already reported and the loop kept spinning: the loop and its timers are abandoned (leaked)
